@@ -20,9 +20,9 @@ def main():
     env = dict(os.environ, PYTHONPATH=WT, PYTHONDONTWRITEBYTECODE='1')
     results = {}
     try:
-        for d in sorted(glob.glob('/tmp/mut/C*/out/m*')):
+        for d in sorted(glob.glob(os.environ.get('MUT_GLOB', '/tmp/mut/C*/out/m*'))):
             pid = d.split('/')[3]
-            name = '%s-%s' % (pid, os.path.basename(d))
+            name = '%s-%s%s' % (pid, os.environ.get('MUT_TAG', ''), os.path.basename(d))
             if sys.argv[1:] and name not in sys.argv[1:] and pid not in sys.argv[1:]:
                 continue
             dest = '/verif/seeded/' + name
@@ -59,7 +59,7 @@ def main():
             print(name, results[name], flush=True)
     finally:
         sh('git -C /repo worktree remove --force %s' % WT)
-    json.dump(results, open('/verif/seeded/confirm_log.json', 'w'), indent=1)
+    json.dump(results, open('/verif/seeded/confirm_log%s.json' % os.environ.get('MUT_TAG', ''), 'w'), indent=1)
 
 
 main()
